@@ -144,6 +144,23 @@ def validate(ctx, recs, label, chunk):
     return prej, [i for i in irej if i not in prej]
 
 
+APPENDING = ('append', 'appendSub', 'appendLit', 'pushBack', 'rawAppend', 'appendf', 'printf', 'cstr', 'reserveSpace', 'reserveCapacity', 'setAt',
+             'toLower', 'toUpper')
+
+
+def after_empty_raw_append(evs, k):
+    """the call that diverged writes through a value on which an earlier rawAppendStart(0)/rawAppendFinish(0) pair was executed"""
+    toks = (evs[k].get('line') or '').split()
+    if len(toks) < 3 or toks[0] not in APPENDING:
+        return False
+    targets = {toks[1], toks[2]} if toks[0] in ('appendf', 'printf') else {toks[1]}
+    for e in evs[:k]:
+        t = (e.get('line') or '').split()
+        if len(t) == 9 and t[0] == 'rawAppend' and t[6] == '-' and t[4] == '0' and t[1] in targets:
+            return True
+    return False
+
+
 def classify(ev):
     if 'o' not in ev:
         a = ev.get('line', '?').split()[0]
@@ -164,6 +181,7 @@ def report(ctx, recs_events, prej, irej, label):
         k = min(prej[hi], len(evs) - 1)
         ev = evs[k]
         cls = classify(ev)
+        cls['after_empty_rawAppend'] = after_empty_raw_append(evs, k)
         what = ('real SBufs diverge from independent values at step %d of a %d-step history: %s' % (k + 1, len(evs), ev.get('line')))
         if 'o' in ev:
             what += ' -> result %s, reported contents %s' % (json.dumps(ev['res']), json.dumps(ev['ch'])[:300])
@@ -243,6 +261,34 @@ def tours(ctx, edges, maxlen=300):
     return hists, covered
 
 
+def graph_walks(ctx, edges, nwalks, length):
+    """seeded random walks through TLC's state graph: the same calls as the tours, but every state is left and re-entered
+    many times, so that the real objects meet the same abstract state in many different sharing configurations"""
+    rnd = random.Random(ctx.seed * 31 + 7)
+
+    def key(st):
+        return json.dumps(st, separators=(',', ':'))
+    out = collections.defaultdict(list)
+    for e in edges:
+        out[key(e['s'])].append((e['o'], key(e['t'])))
+    for k in out:
+        out[k].sort(key=lambda x: (json.dumps(x[0], sort_keys=True), x[1]))
+    init = key(edges[0]['s'])
+    walks = []
+    for _ in range(nwalks):
+        cur, h = init, []
+        for _s in range(length):
+            # half of the steps prefer calls that change the state (mutators drive the sharing structure)
+            cands = out[cur]
+            if rnd.random() < 0.5:
+                moving = [c for c in cands if c[1] != cur]
+                cands = moving or cands
+            o, cur = rnd.choice(cands)
+            h.append(o)
+        walks.append(h)
+    return walks
+
+
 # -------------------------------------------------------------------------------------------------------------------------
 # T2: seeded random walks
 # -------------------------------------------------------------------------------------------------------------------------
@@ -277,7 +323,7 @@ def rand_walk(rnd, k, nops, wild, big):
     ops = []
 
     def lit():
-        n = rnd.choice([0, 1, 1, 2, 3, 5, 8, 20, 40, 63, 64, 65, 100, 300] + ([1500, 4000] if big else []))
+        n = rnd.choice([0, 0, 0, 1, 1, 2, 3, 5, 8, 20, 40, 63, 64, 65, 100, 300] + ([1500, 4000] if big else []))
         return bytes(rnd.choice(alpha) for _ in range(n))
     names = [a for a, _ in WEIGHTS]
     weights = [w for _, w in WEIGHTS]
@@ -381,6 +427,18 @@ def run(ctx):
     ctx.log('T1: %d edges in %d tours (%d calls): P-rejected %d, I-only rejected %d' % (covered, len(recs), ctx.cov['t1_steps'], len(prej), len(irej)))
     report(ctx, recs_events, prej, irej, 't1')
 
+    # ---- T1b: random walks through the same graph
+    gw = graph_walks(ctx, edges, 240 if ctx.thorough else 36, 250)
+    hists = [('R %d 0 1' % K1, [op_line(o) for o in h]) for h in gw]
+    events_b, deaths_b = run_histories(ctx, exe, hists)
+    recs_events_b = [(K1, evs) for evs in events_b]
+    recs_b = [hist_record(K1, evs) for evs in events_b]
+    prej_b, irej_b = validate(ctx, recs_b, 't1b', chunk=max(4, -(-len(recs_b) // (16 if ctx.thorough else 8))))
+    ctx.cov['graph_walks'] = len(recs_b)
+    ctx.cov['graph_walk_steps'] = sum(len(e) for e in events_b)
+    ctx.log('T1b: %d random walks through the model graph (%d calls): P-rejected %d, I-only rejected %d' % (len(recs_b), ctx.cov['graph_walk_steps'], len(prej_b), len(irej_b)))
+    report(ctx, recs_events_b, prej_b, irej_b, 't1b')
+
     # ---- T2
     rnd = random.Random(ctx.seed * 7919 + 13)
     nh, nops = (260, 200) if ctx.thorough else (40, 140)
@@ -405,9 +463,9 @@ def run(ctx):
     events3 = run_limits(ctx, exe)
 
     # ---- evidence
-    allev = [e for evs in events + events2 for e in evs if 'o' in e]
+    allev = [e for evs in events + events_b + events2 for e in evs if 'o' in e]
     byop = collections.Counter(e['o']['a'] for e in allev)
-    ctx.cov['impl_traces'] = len(recs) + len(recs2) + len(events3)
+    ctx.cov['impl_traces'] = len(recs) + len(recs_b) + len(recs2) + len(events3)
     ctx.cov['impl_steps'] = len(allev) + sum(len(e) for e in events3)
     ctx.cov['calls_by_operation'] = dict(sorted(byop.items()))
     ctx.cov['calls_that_raised'] = sum(1 for e in allev if not e['res']['ok'])
@@ -420,10 +478,10 @@ def run(ctx):
         longsteps += 1 if m > 64 else 0
     ctx.cov['longest_value'] = longest
     ctx.cov['steps_reporting_a_value_over_64_bytes'] = longsteps
-    ctx.cov['driver_deaths'] = len(deaths) + len(deaths2)
-    ctx.cov['ub_reports'] = sum(1 for evs in events + events2 for e in evs if e.get('ub'))
+    ctx.cov['driver_deaths'] = len(deaths) + len(deaths_b) + len(deaths2)
+    ctx.cov['ub_reports'] = sum(1 for evs in events + events_b + events2 for e in evs if e.get('ub'))
     distinct = set()
-    for evs in events + events2:
+    for evs in events + events_b + events2:
         for e in evs:
             if 'o' in e:
                 distinct.add(e['line'] + '|' + json.dumps(e['ch'], sort_keys=True)[:200])
